@@ -1,6 +1,13 @@
 #!/usr/bin/env python3
 """Prints the markdown table of independently seeded changes (seeded/*/meta.json)."""
 import json, glob, os
+# Seeded changes the checks do not flag on purpose (see DESIGN §13.6 for the reasons).
+BY_DESIGN = {
+    'C32-seed3': 'not a violation: fewer debug events, results equal (probe)',
+    'C28-seed4': 'outside the statement: field of the Panic receipt',
+    'C28-seed6': 'outside the statement: field of the Panic receipt',
+    'C11-seed6': 'outside the statement: state after a failed push (upstream WARNING)',
+}
 rows = []
 for m in sorted(glob.glob(os.path.join(os.path.dirname(__file__), '..', 'seeded', '*', 'meta.json'))):
     d = json.load(open(m))
@@ -9,10 +16,12 @@ for m in sorted(glob.glob(os.path.join(os.path.dirname(__file__), '..', 'seeded'
     if os.path.exists(notes):
         for l in open(notes):
             l = l.strip().lstrip('#').strip()
-            if l:
+            if l and not (len(l) < 8 and l.startswith('C')) and not l.lower().startswith('breaks'):
                 title = l[:110]
                 break
     checks = '; '.join(f"{k}: {v.split(':')[0].split('(')[0].strip()}" + (f" ({v.split('invariant=')[1].split(' ')[0]})" if 'invariant=' in v else '') for k, v in d.get('checks_run', {}).items())
+    if d['name'] in BY_DESIGN:
+        checks += ' — ' + BY_DESIGN[d['name']]
     rows.append(f"| {d['name']} | {d['breaks_property']} | {title} | {checks} |")
 print("| seeded change | property | what | verdict of the checks |\n|---|---|---|---|")
 print('\n'.join(rows))
